@@ -69,14 +69,14 @@ func genCase(t *rapid.T) Case {
 	cls := rapid.SampledFrom(classes).Draw(t, "fault")
 	if f := faultFlag[cls]; f != "" && !ev.Flag(f) {
 		ev.R().Exclude(f)
-		// redirect to a class that is still allowed (stable order)
-		cls = "none"
-		for _, alt := range []string{"tcp_reset", "no_ack", "slow_apply", "tcp_stall", "stalled_reader"} {
+		// redirect to the classes that are still allowed
+		allowed := []string{"none"}
+		for _, alt := range []string{"tcp_reset", "tcp_reset", "no_ack", "no_ack", "slow_apply", "slow_apply", "tcp_stall", "tcp_stall", "stalled_reader", "stalled_reader"} {
 			if ev.Flag(faultFlag[alt]) {
-				cls = alt
-				break
+				allowed = append(allowed, alt)
 			}
 		}
+		cls = rapid.SampledFrom(allowed).Draw(t, "fault_alt")
 	}
 	// workload: the bulk are puts of 2-24 KiB so that several MiB are pushed
 	n := rapid.IntRange(120, 400).Draw(t, "nsteps")
